@@ -692,11 +692,17 @@ func canonicalUnicodeCatName(catName string) (string, bool) {
 	}
 
 	normalized := normalizeUnicodeCategoryAlias(catName)
+	// an enumerated property (Word_Break, Sentence_Break, Grapheme_Cluster_Break) is
+	// only a class together with a value; on its own it must not resolve
 	if canonical, ok := unicodeSupportedPropertyAliases[normalized]; ok {
-		return canonical, true
+		if _, isClass := unicodeCategories[canonical]; isClass {
+			return canonical, true
+		}
 	}
 	if canonical, ok := unicodeBarePropertyValueAliases[normalized]; ok {
-		return canonical, true
+		if _, isClass := unicodeCategories[canonical]; isClass {
+			return canonical, true
+		}
 	}
 
 	if eq := strings.IndexRune(catName, '='); eq >= 0 {
